@@ -34,6 +34,14 @@ func (s *jsession) finish() {
 	if !reflect.DeepEqual(in, out) && !(len(in) == 0 && len(out) == 0) {
 		s.fail("C03 concatenation of the output %v differs from the input %v", out, in)
 	}
+	// the producer's memory: no input slice may have been written to by the discipline (a
+	// producer that sends overlapping windows of one array would lose elements: C03)
+	for id, in := range s.inputs {
+		if cp, ok := s.inputCopy[id]; ok && len(cp) > 0 && !reflect.DeepEqual(in, cp) {
+			s.fail("C03 the discipline modified the memory of input slice %d: %v -> %v (overlapping input slices of one array would lose these elements)", id, cp, in)
+			break
+		}
+	}
 	// C08 copy mode: retained slices were never modified; scribbling into them is harmless
 	for i, k := range s.kept {
 		if !reflect.DeepEqual(k, s.keptCopy[i]) {
